@@ -41,6 +41,9 @@ Q_CASES = {
                                                                    'events': 'scte35', 'scte35__interval': '200'}),
     'video-ping': ('bbb_v7', 'bbb_v7', {'events': 'ping', 'ping__count': '0', 'ping__interval': '100'}),
     'video-scte35': ('bbb_v7', 'bbb_v7', {'events': 'scte35', 'scte35__interval': '200'}),
+    # PIFF box and several emsg boxes in front of the moof at once (saio offset fix-up from a negative provisional value)
+    'enc-video-ping-piff': ('bbb_v7_enc', 'bbb_v7', {'drm': 'playready', 'playready__piff': '1', 'events': 'ping',
+                                                     'ping__interval': '100'}),
 }
 T_CASES = dict(Q_CASES, **{
     'enc-video-playready-piff': ('bbb_v7_enc', 'bbb_v7', {'drm': 'playready', 'playready__piff': '1'}),
@@ -269,7 +272,7 @@ def _check(sx, stored, out, media, args, discover):
         offs = mk.read_saio(saio)
         stale_ok = 'saio' in args.get('bugs', '')
         if sx is not None:
-            good = sx_and(len(offs) == 1, offs[0] + base == se['first_entry_pos'])
+            good = sx_and(len(offs) == 1, offs[0] + base == se['first_entry_pos']) if len(offs) == 1 else False
             same = se['sample_count'] == trun['sample_count']
             if stale_ok:
                 # bug compatibility: only the offset may be stale
